@@ -108,7 +108,7 @@ def step (s : St) (ws : List String) : St × List String :=
   | ["copyconns", a, b] =>
     match a.toNat?, b.toNat? with
     | some a, some b =>
-      let (g, r) := Conn.step s.g (.copyConns a b)
+      let (g, r) := copyConnsN s.g a b
       let s' := { s with g }
       (s', [showRes r ++ " - " ++ obs s'])
     | _, _ => (s, ["bad-op"])
@@ -128,7 +128,7 @@ def step (s : St) (ws : List String) : St × List String :=
       | _ => none
     match parsed, (if fh = "hard" then some true else if fh = "soft" then some false else none) with
     | some pairs, some hard =>
-      let (g, r) := Conn.step s.g (.copyIo hard pairs)
+      let (g, r) := copyIoN s.g hard pairs
       let s' := { s with g }
       (s', [showRes r ++ " - " ++ obs s'])
     | _, _ => (s, ["bad-op"])
